@@ -3,6 +3,7 @@ import VelaVerif.Lemmas.AllocGreedy
 import VelaVerif.Lemmas.AllocLinear
 import VelaVerif.Lemmas.AllocHc
 import VelaVerif.Lemmas.AllocHcErr
+import VelaVerif.Lemmas.AllocVerify
 /-!
 # C05 — tensor allocators never overlap live buffers and report their true footprint
 
@@ -43,6 +44,26 @@ theorem spec_noOverlap_perm {ps qs : List Placed} (h : ps.Perm qs) : NoOverlap p
 theorem spec_disjoint_covers_peak (ps : List Placed) (total : Nat) (hcls : ∀ p ∈ ps, p.cls = 0)
     (hno : NoOverlap ps) (hT : ∀ p ∈ ps, p.addr + p.size ≤ total) : CoversPeak ps total :=
   coversPeak_of_noOverlap ps total hcls hno hT
+
+/-! ## `verify_allocation` (the check Vela itself runs after Greedy and HillClimb) -/
+
+/-- **verifyAllocation_sound / complete**: the transcription of `tensor_allocation.verify_allocation`
+    (time-slot loop over "new" ranges, first overlapping tensor pair, `equivalent` exemption) raises
+    no error **iff** every CPU tensor is aligned and the placements satisfy the Spec's `NoOverlap` —
+    for ranges with one tensor each, positive sizes and a positive alignment. -/
+theorem verifyAllocation_sound_complete (lrs : List (VLr × VTens)) (alignment : Nat)
+    (hal : 0 < alignment) (hne : lrs ≠ []) (hone : ∀ p ∈ lrs, p.1.tens = [p.2])
+    (hsz : ∀ p ∈ lrs, 0 < p.1.size) :
+    verifyAllocation (lrs.map Prod.fst) alignment = .ok () ↔
+      (∀ p ∈ lrs, p.2.cpu = true → alignment ∣ p.2.addr) ∧
+      NoOverlap (lrs.map (fun p => vPlaced p.1 p.2)) :=
+  verifyAllocation_iff lrs alignment hal hne hone hsz
+
+/-- the test-suite example: two ranges alive together at overlapping addresses are rejected -/
+example : verifyAllocation [⟨4, 9, 10000, [⟨16, 1, false⟩]⟩, ⟨7, 13, 2000, [⟨32, 2, false⟩]⟩] 16 =
+    .error .alloc := rfl
+example : verifyAllocation [⟨4, 9, 10000, [⟨16, 1, false⟩]⟩, ⟨7, 13, 2000, [⟨160000, 2, false⟩]⟩] 16 =
+    .ok () := rfl
 
 /-! ## Greedy -/
 
